@@ -32,6 +32,8 @@ CHECKS["C04"] = {
     "parts": [
         {"name": "sm3-history", "pkg": "sm3", "run": "TestVX_C04", "public_files": ["sm3/C04_pub_test.go"],
          "shards": {"quick": 2, "thorough": 4}},
+        {"name": "sm3-huge", "pkg": "sm3", "run": "TestVX_C04Huge", "public_files": ["sm3/C04huge_pub_test.go"],
+         "shards": {"quick": 2, "thorough": 3}},
     ],
     "deadline": {"quick": 200, "thorough": 3000},
 }
@@ -159,13 +161,17 @@ CHECKS["C05"] = {
 CHECKS["C06"] = {
     "level": "exploration",
     "assumptions": ["gcmref over sm4ref is the oracle (mode logic validated against the standard library's AES-GCM and a NIST vector)",
-                    "lengths <= 1100 (covers every combination of the 256/128/64/32/16-byte kernels and a tail); messages >= 4 GiB not executed"],
+                    "every length <= 1100 (covers every combination of the 256/128/64/32/16-byte kernels and a tail), selected lengths up to 2^20, and 2^29 (bit length 2^32); messages >= 4 GiB not executed"],
     "parts": [
         {"name": "seal", "pkg": "sm4", "run": "TestVX_C06", "public_files": SM4P + ["sm4/C06_pub_test.go"], "shards": 16, "env": {"VX_PART": "seal"}},
         {"name": "seal-armglue", "variant": "armglue", "pkg": "sm4", "run": "TestVX_C06", "public_files": SM4P + ["sm4/C06_pub_test.go"],
          "shards": 16, "env": {"VX_PART": "seal-armglue"}},
         {"name": "seal-generic", "variant": "generic", "pkg": "sm4", "run": "TestVX_C06", "public_files": SM4P + ["sm4/C06_pub_test.go"],
          "shards": 16, "env": {"VX_PART": "seal-generic"}},
+        {"name": "seal-huge", "pkg": "sm4", "run": "TestVX_C06Huge", "public_files": SM4P + ["sm4/C06huge_pub_test.go"],
+         "shards": {"quick": 6, "thorough": 8}, "env": {"VX_PART": "seal-huge"}},
+        {"name": "seal-huge-armglue", "variant": "armglue", "pkg": "sm4", "run": "TestVX_C06Huge", "public_files": SM4P + ["sm4/C06huge_pub_test.go"],
+         "shards": {"quick": 6, "thorough": 8}, "env": {"VX_PART": "seal-huge-armglue"}},
     ],
     "prepare": {"generic": [["python3", "{verif}/tools/prep_generic.py", "{repo}"]], "armglue": [["python3", "{verif}/tools/prep_armglue.py", "{repo}"]]},
     "deadline": {"quick": 200, "thorough": 3000},
